@@ -107,4 +107,12 @@ theorem C11_stmt_false : ¬ SuppModel.Props.C11.C11_stmt := by
     (Or.inr ⟨' ', by decide, by decide⟩) (Or.inr ⟨')', by decide, by decide⟩)
   exact this (by decide +kernel)
 
+/-! ### fixed by 4a16e68: `location()` reported positions of the MARKED text.  `x = 1\n[nn for nn in x]`, cursor (2, 3):
+    the comprehension variable stands at (2, 8); the marked analysis has it at (2, 21) -/
+
+theorem C11_location_shift_legacy :
+    (locationEntryLegacy { name := "nn".toList, declaredAt := markedPos (2, 3) (2, 8), filename := "m.py".toList }).loc = (2, 21) ∧
+    (locationEntry "m.py".toList (2, 3)
+      { name := "nn".toList, declaredAt := markedPos (2, 3) (2, 8), filename := "m.py".toList }).loc = (2, 8) := by decide
+
 end SuppModel.Witness.C11
